@@ -499,9 +499,56 @@ def check_modifiers(ctx, f):
     ctx.ob('R14.4-modifiers', 'lists', ok, where, 'reactant and product ids are collected for the modifier test', '')
 
 
+def check_unique_ids(ctx, f):
+    """An identifier in a kinetic law denotes one element of the document: the id given to a reaction is made unique against the ids of
+    ALL elements written so far (species and parameters share the namespace with reactions; a species called r1 must not meet a
+    reaction r1) - the id comes from SetIdFromNames(getAllIds(<document>.getListOfAllElements())).getValidIdForName(...)."""
+    sd = {n_: v_ for n_, v_ in util.single_defs(f).items() if v_ is not None}
+    sets = [c for c in ast.walk(f) if isinstance(c, ast.Call) and isinstance(c.func, ast.Attribute) and c.func.attr == 'setId'
+            and src(c.func.value) == 'reaction' and len(c.args) == 1]
+    problems = []
+    if len(sets) != 1:
+        raise AnalysisError('add_reaction: reaction.setId(...) not found')
+    a = util.inline(sets[0].args[0], sd)
+    txt = src(a).replace(' ', '')
+    import re
+    m = re.match(r'^SetIdFromNames\(getAllIds\((.+)\.getListOfAllElements\(\)\)\)\.getValidIdForName\((.+)\)$', txt)
+    if not m:
+        problems.append('the reaction id is %s: not made unique against the ids of all elements of the document' % src(a)[:120])
+    elif not (m.group(1) in ('model.getSBMLDocument()', 'document') or m.group(1).endswith('getSBMLDocument()')):
+        problems.append('ids are collected from %s, not from the whole document' % m.group(1))
+    ctx.ob('R14.1-identifiers', 'unique-ids/reaction', not problems, ctx.loc('sbmlutil', sets[0]),
+           'a reaction id is distinct from every id already in the document (an identifier in a law denotes one species or parameter)',
+           '; '.join(problems))
+    g = get_func(ctx, 'getAllIds')
+    rets = [r for r in ast.walk(g) if isinstance(r, ast.Return)]
+    app = [c for c in ast.walk(g) if isinstance(c, ast.Call) and isinstance(c.func, ast.Attribute) and c.func.attr == 'append']
+    loops = [l for l in ast.walk(g) if isinstance(l, ast.For)]
+    ok = len(loops) == 1 and len(app) == 1 and src(app[0].args[0]).replace(' ', '') == 'current.getId()' \
+        and src(loops[0].iter).replace(' ', '') in ('range(0,allElements.getSize())', 'range(allElements.getSize())')
+    if ok:
+        # the only elements left out are those without an id and local parameters (their scope is their own reaction)
+        tests = []
+        cur = app[0]
+        while getattr(cur, '_parent', None) is not None and cur is not loops[0]:
+            if isinstance(cur._parent, ast.If) and cur in cur._parent.body:
+                t_ = cur._parent.test
+                tests += [src(v_).replace(' ', '') for v_ in (t_.values if isinstance(t_, ast.BoolOp) and isinstance(t_.op, ast.And) else [t_])]
+            elif isinstance(cur._parent, ast.If):
+                tests.append('else-branch')
+            cur = cur._parent
+        ok = sorted(tests) == sorted(['current.isSetId()', 'current.getTypeCode()!=libsbml.SBML_LOCAL_PARAMETER'])
+        det = '' if ok else 'ids are kept under %s' % tests
+    else:
+        det = 'the collecting loop was not recognised'
+    ctx.ob('R14.1-identifiers', 'unique-ids/getAllIds', ok, ctx.loc('sbmlutil', g),
+           'getAllIds returns the id of every element that has one (local parameters aside)', det)
+
+
 def check(ctx):
     ctx.prog.mod('sbmlutil')
     f = get_func(ctx, 'add_reaction')
+    check_unique_ids(ctx, f)
     check_templates(ctx, f)
     check_stoichiometry(ctx, f)
     check_modifiers(ctx, f)
